@@ -209,7 +209,14 @@ fn honest_oracle(c: &HonestCase, rec: &Rec) -> R {
     // by construction: accepted iff linked slot, same params, same challenge — except that two slots
     // holding the same value with the same commitment scalar cannot occur here (only one is linked)
     let by_construction = label == "linked";
-    ensure!(reference == by_construction, "harness/reference-disagrees-with-construction", "range reference says {} for {}", reference, label);
+    ensure!(
+        reference == by_construction,
+        if label == "linked" { "C13/honest-constraint-does-not-satisfy-relation" } else { "harness/reference-disagrees-with-construction" },
+        "range reference says {} for {} (value {})",
+        reference,
+        label,
+        v
+    );
     if lib != reference {
         return Err(Fail::new(
             if reference { "C13/honest-constraint-rejected" } else { "C13/constraint-accepted-on-mismatch" },
